@@ -288,8 +288,46 @@ class Exec2(Exec):
             self.closure_src[cname] = mcl.group(1)
             fields = [f.split(":", 1)[1] for f in self.split_args(mcl.group(3) or "") if ":" in f]
             vals = [self.operand(env, f) for f in fields]
+            vals = self._disjoint_captures(env, mcl.group(1), fields, vals)
             return "(%s %s)" % (self.smt.fun(cname, len(vals)), " ".join(vals)) if vals else self.smt.fun(cname, 0)
         return super().rvalue(env, rv)
+
+    def _disjoint_captures(self, env, src, fields, vals):
+        """rustc's MIR printer lists ONE operand per captured VARIABLE (`{closure} { k: copy _8 }`) even when the closure
+        captures several fields of it disjointly (upvars `k__0`, `k__1`, `k__2` = `_1.0`, `_1.1`, `_1.2` in its body): the
+        operands of the other fields are not in the text.  When the printed operand is `copy _a` with `_a = copy (_b.0: T)` in
+        the current block, the missing ones are the same base's fields `.1`, `.2`, ... (that is what the compiler emits)."""
+        if src.startswith("{coroutine@") or len(fields) != 1:
+            return vals
+        try:
+            body, _byref = self.closure_body(src)
+        except ValueError:
+            return vals
+        ups = {}
+        for name, expr in body.debug.items():
+            m = re.match(r"^\(?\*?\(?_1\.(\d+): ", expr.strip())
+            mm = re.match(r"^(\w+?)__(\d+)$", name)
+            if m and mm:
+                ups[int(m.group(1))] = (mm.group(1), int(mm.group(2)))
+        if len(ups) <= 1 or len({v[0] for v in ups.values()}) != 1 or sorted(ups) != list(range(len(ups))):
+            return vals
+        mo = re.match(r"^(?:copy|move) (_\d+)$", fields[0].strip())
+        if not mo:
+            raise ValueError("closure with disjoint captures built from an operand the executor cannot trace: %s" % fields[0])
+        base = None
+        for st in getattr(self, "_cur_stmts", []):
+            md = re.match(r"^%s = (?:no_retag )?(?:copy|move|&(?:mut )?) ?\(\(?\*?(_\d+)\)?\.(\d+): " % re.escape(mo.group(1)), st)
+            if md:
+                base = (md.group(1), st)
+        if base is None:
+            raise ValueError("closure with disjoint captures: defining statement of %s not found" % mo.group(1))
+        tmpl = base[1].split(" = ", 1)[1]
+        out = []
+        for i in range(len(ups)):
+            fld = ups[i][1]
+            expr = re.sub(r"\.(\d+): ", ".%d: " % fld, tmpl, count=1).rstrip(";")
+            out.append(self.rvalue(env, expr))
+        return out
 
     @staticmethod
     def _strip_generics(rv):
@@ -406,6 +444,7 @@ class Exec2(Exec):
         env = dict(env)
         stmts = body.blocks[bb]
         for st in stmts[:-1]:
+            self._cur_stmts = stmts
             self._stmt(env, st)
         term = stmts[-1] if stmts else "return;"
         if term.startswith("return"):
